@@ -37,5 +37,12 @@ try:
 finally:
     subprocess.run(["git", "-C", wt, "checkout", "-q", "--", "."], check=True)
     shutil.rmtree(scratch, ignore_errors=True)
-json.dump(res, open(os.path.join(d, "detected.json"), "w"), indent=1)
+# merge into what earlier runs recorded (a run may cover only some properties); `_run` says which /verif commit produced each entry
+det = os.path.join(d, "detected.json")
+old = json.load(open(det)) if os.path.exists(det) else {}
+head = subprocess.run(["git", "-C", "/verif", "rev-parse", "--short", "HEAD"], capture_output=True, text=True).stdout.strip()
+for p_, v in res.items():
+    v["_run"] = head
+    old[p_] = v
+json.dump(old, open(det, "w"), indent=1)
 print(sid, "alarmed:", [p for p, v in res.items() if v["rc"]])
